@@ -567,6 +567,29 @@ Definition m_from_dict (sch : schema) (d : list (list Z * dval)) : option ctable
   | None => None
   end.
 
+(* ---- how a sequence argument is handed over: the iteration protocol ----
+   from_entry_tuples is declared to take an Iterable[tuple].  A re-iterable (list, tuple, deque, an object with only
+   __iter__, a dict view, a list of lists) gives its rows on every traversal; a one-shot iterator (generator, iter(),
+   zip of the columns, map, itertools.chain, an object with only __next__) gives them on the FIRST traversal and
+   nothing afterwards. *)
+Inductive itkind :=
+| ItList | ItTuple | ItDeque | ItReiter | ItDictValues | ItRowLists
+| ItGen | ItIter | ItZip | ItMap | ItChain | ItOnce.
+Definition it_one_shot (k : itkind) : bool :=
+  match k with ItGen | ItIter | ItZip | ItMap | ItChain | ItOnce => true | _ => false end.
+(* what the (pre+1)-th traversal of the argument yields *)
+Definition it_yield {A} (pre : nat) (one_shot : bool) (rows : list A) : list A :=
+  match pre with O => rows | S _ => if one_shot then [] else rows end.
+(* number of complete traversals of `tuples` the code makes BEFORE the transposing zip( *tuples): none — the argument is
+   mentioned once in the body (Gen/C19.v gen_from_rows_argument_uses, Bridge b_from_rows_argument_uses) *)
+Definition m_from_rows_argument_uses : Z := 1.
+Definition m_from_rows_pre_traversals : nat := Z.to_nat (m_from_rows_argument_uses - 1).
+
+(* from_entry_tuples on an argument handed over as `how`, by a body that makes `pre` complete traversals of it before
+   the transposing zip( *tuples).  The code that exists is the instance pre = m_from_rows_pre_traversals. *)
+Definition m_from_rows_via (pre : nat) (sch : schema) (how : itkind) (rows : list (list mcell)) : option ctable :=
+  m_from_rows sch (it_yield pre (it_one_shot how) rows).
+
 (* ---- programs ---- *)
 Inductive op :=
 | OTake (ix : list Z) | OMask (m : list bool) | OSlice (a b : option Z) (st : Z)
@@ -574,7 +597,7 @@ Inductive op :=
 | OSort (f : nat)
 | OReplace (f : nat) (a : colarg)
 | OAdd (name : list Z) (k : kind) (l : list mb)
-| ORows | ODict | OPandas
+| ORows (how : itkind) | ODict | OPandas
 | OIndex (i : Z) | OIter
 (* add_fields on the OTHER operand (whose schema sch1 the operation carries): the current table becomes t1 + field.
    Lets a program add a same-named field of another type to a second table of the same class. *)
@@ -597,7 +620,7 @@ Definition m_step (sch : schema) (cur t1 : ctable) (o : op) : mres :=
   | OSort f => of_opt sch (m_sort_by f cur)
   | OReplace f a => of_opt sch (m_replace sch f a cur)
   | OAdd name k l => of_opt (sch ++ [(name, FB k)]) (m_add k l cur)
-  | ORows => of_opt sch (m_from_rows sch (m_to_rows cur))
+  | ORows how => of_opt sch (m_from_rows sch (it_yield m_from_rows_pre_traversals (it_one_shot how) (m_to_rows cur)))
   | ODict | OPandas => of_opt sch (m_from_dict sch (m_todict sch cur))
   | OIndex i => match s_index (m_to_rows cur) i with Some r => MRows [r] | None => MErr end
   | OIter => MRows (m_to_rows cur)
@@ -676,7 +699,7 @@ Definition s_step (sch : schema) (cur t1 : table) (o : op) : sres :=
       | None => SErr
       end
   | OAdd _ k l => if forallb (mb_ok k) l then s_opt (s_add (map (fun b => CB (erase_b b)) l) cur) else SErr
-  | ORows | ODict | OPandas => STab cur
+  | ORows _ | ODict | OPandas => STab cur         (* whatever the shape the rows are handed over in *)
   | OIndex i => match s_index cur i with Some r => SRows [r] | None => SErr end
   | OIter => SRows cur
   | OAddT1 _ _ k l => if forallb (mb_ok k) l then s_opt (s_add (map (fun b => CB (erase_b b)) l) t1) else SErr
